@@ -83,6 +83,12 @@ RECURSIVE SumRows(_)
 SumRows(k) == IF k = 0 THEN Zero ELSE QAdd(RowLL(Xs[k]), SumRows(k - 1))
 LL == SumRows(Len(Xs))
 PerRow == [k \in 1..Len(Xs) |-> RowLL(Xs[k])]
+\* without any dictionary every parameter has its starting value (a dictionary given to an earlier call is forgotten)
+TermStart(r, x) == LET d == QSub(Start[r], QMul(I(C[r]), x)) IN QMul(I(-A[r]), QMul(d, d))
+RowLLStart(x) == LET RECURSIVE S(_)
+                     S(r) == IF r = 0 THEN Zero ELSE QAdd(TermStart(r, x), S(r - 1))
+                 IN  S(NR)
+PerRowStart == [k \in 1..Len(Xs) |-> RowLLStart(Xs[k])]
 
 RECURSIVE SumX(_)
 SumX(k) == IF k = 0 THEN Zero ELSE QAdd(Xs[k], SumX(k - 1))
@@ -158,6 +164,7 @@ Emitted ==
      values |-> [r \in Roles |-> Compact(ValueOf(r))],
      ll |-> Compact(LL),
      per_row |-> [k \in 1..Len(Xs) |-> Compact(PerRow[k])],
+     per_row_start |-> [k \in 1..Len(Xs) |-> Compact(PerRowStart[k])],
      optimum |-> [r \in Roles |-> Compact(IF st[r] THEN Optimum(r) ELSE Start[r])]]
 EmitInv == done => PrintT(ToJson(Emitted))
 =============================================================================
